@@ -1,6 +1,10 @@
 package core
 
-import "golang.org/x/tools/go/ssa"
+import (
+	"go/constant"
+
+	"golang.org/x/tools/go/ssa"
+)
 
 // PathItem is one step of an enumerated path: an instruction, or a branch
 // decision (Cond != nil) with the successor index taken.
@@ -16,11 +20,33 @@ func EnumPathItems(fn *ssa.Function, max int, visit func(items []PathItem, block
 	return EnumPaths(fn, max, func(path []*ssa.BasicBlock, taken []int) {
 		var items []PathItem
 		var ret *ssa.Return
+		infeasible := false
 		for i, b := range path {
 			for _, in := range b.Instrs {
 				if iff, ok := in.(*ssa.If); ok {
 					if i < len(taken) {
+						// a short-circuit block stands for the operand supplied by the predecessor on this path
+						var sc *ssa.Phi
+						if i > 0 {
+							if sc = shortCircuit(b); sc != nil {
+								for k, pb := range b.Preds {
+									if pb == path[i-1] {
+										condOverride[sc] = sc.Edges[k]
+										break
+									}
+								}
+							}
+						}
 						v, t := Truth(iff.Cond, taken[i])
+						if sc != nil {
+							delete(condOverride, sc)
+						}
+						if c, ok := v.(*ssa.Const); ok && c.Value != nil && c.Value.Kind() == constant.Bool {
+							if constant.BoolVal(c.Value) != t {
+								infeasible = true
+							}
+							continue
+						}
 						items = append(items, PathItem{In: in, Cond: v, Truth: t})
 					}
 					continue
@@ -31,7 +57,7 @@ func EnumPathItems(fn *ssa.Function, max int, visit func(items []PathItem, block
 				items = append(items, PathItem{In: in})
 			}
 		}
-		if ret != nil {
+		if ret != nil && !infeasible {
 			visit(items, path, ret)
 		}
 	})
